@@ -81,6 +81,23 @@ pub struct Rg {
     pub key: Option<String>,
 }
 
+/// `include` / `exclude` of a terms aggregation: exact values or one regular expression that has
+/// to match the whole term
+#[derive(Clone, Debug, PartialEq)]
+pub enum IncExc {
+    Values(Vec<String>),
+    Regex(String),
+}
+
+impl IncExc {
+    pub fn json(&self) -> Value {
+        match self {
+            IncExc::Values(v) => json!(v),
+            IncExc::Regex(r) => json!(r),
+        }
+    }
+}
+
 pub type Aggs = Vec<(String, Agg)>;
 
 #[derive(Clone, Debug)]
@@ -143,6 +160,9 @@ pub enum Agg {
         show_err: Option<bool>,
         /// small segment_size: only the documented bounds are asserted
         approx: bool,
+        /// only generated for string fields without `missing`
+        include: Option<IncExc>,
+        exclude: Option<IncExc>,
         subs: Aggs,
     },
     Filter {
@@ -424,6 +444,8 @@ pub fn agg_json(a: &Agg) -> Value {
             order,
             missing,
             show_err,
+            include,
+            exclude,
             ..
         } => {
             kind_name = "terms";
@@ -451,6 +473,12 @@ pub fn agg_json(a: &Agg) -> Value {
             }
             if let Some(s) = show_err {
                 inner.insert("show_term_doc_count_error".into(), json!(s));
+            }
+            if let Some(x) = include {
+                inner.insert("include".into(), x.json());
+            }
+            if let Some(x) = exclude {
+                inner.insert("exclude".into(), x.json());
             }
         }
         Agg::Filter { q, .. } => {
@@ -905,6 +933,34 @@ impl<'a> Gen<'a> {
             }
             3 => {
                 let field = self.pick_single_num_field(true);
+                self.gen_range_on(field, depth)
+            }
+            4 => {
+                let q = match self.rng.below(5) {
+                    0 | 1 => FilterQ::Cat(format!("c{}", self.rng.usize_below(self.corpus.cat_pool + 1))),
+                    2 => {
+                        let a = self.rng.irange(-60, 60);
+                        FilterQ::IRange(a, a + self.rng.irange(0, 80))
+                    }
+                    3 => {
+                        let n = self.corpus.docs.len() as u64;
+                        let a = self.rng.range(0, n);
+                        FilterQ::IdRange(a, a + self.rng.range(0, n + 1))
+                    }
+                    _ => FilterQ::BoolIs(self.rng.bool()),
+                };
+                let subs = self.gen_subs(depth.max(1), false);
+                (self.name("filter"), Agg::Filter { q, subs })
+            }
+            _ => self.gen_composite(depth),
+        }
+    }
+
+    /// range aggregation over a single-valued numeric or date field, cut points inside and just
+    /// outside the span of the field
+    pub fn gen_range_on(&mut self, field: Fd, depth: usize) -> (String, Agg) {
+        {
+            {
                 let scale = if field.ty() == Ty::Date { 1e9 } else { 1.0 };
                 let (lo, hi) = self
                     .corpus
@@ -988,24 +1044,6 @@ impl<'a> Gen<'a> {
                     },
                 )
             }
-            4 => {
-                let q = match self.rng.below(5) {
-                    0 | 1 => FilterQ::Cat(format!("c{}", self.rng.usize_below(self.corpus.cat_pool + 1))),
-                    2 => {
-                        let a = self.rng.irange(-60, 60);
-                        FilterQ::IRange(a, a + self.rng.irange(0, 80))
-                    }
-                    3 => {
-                        let n = self.corpus.docs.len() as u64;
-                        let a = self.rng.range(0, n);
-                        FilterQ::IdRange(a, a + self.rng.range(0, n + 1))
-                    }
-                    _ => FilterQ::BoolIs(self.rng.bool()),
-                };
-                let subs = self.gen_subs(depth.max(1), false);
-                (self.name("filter"), Agg::Filter { q, subs })
-            }
-            _ => self.gen_composite(depth),
         }
     }
 
@@ -1102,6 +1140,68 @@ impl<'a> Gen<'a> {
         self.gen_terms_on(field, depth, top)
     }
 
+    /// distinct terms of a string field in the corpus, sorted
+    pub fn str_terms(&self, f: Fd) -> Vec<String> {
+        let mut s = std::collections::BTreeSet::new();
+        for d in &self.corpus.docs {
+            for v in d.get(f) {
+                if let V::S(x) = v {
+                    s.insert(x.clone());
+                }
+            }
+        }
+        s.into_iter().collect()
+    }
+
+    /// one `include` / `exclude` parameter over the terms of a string field: exact values (some
+    /// real terms, sometimes one that does not occur) or a regular expression (prefix, class of
+    /// the last character, alternation of real terms)
+    pub fn gen_term_filter(&mut self, f: Fd) -> IncExc {
+        let terms = self.str_terms(f);
+        if terms.is_empty() {
+            return IncExc::Values(vec!["zz_absent".to_string()]);
+        }
+        match self.rng.below(6) {
+            0 | 1 | 2 => {
+                let k = self.rng.urange(1, (terms.len() / 2).clamp(1, 6));
+                let mut v: Vec<String> = (0..k).map(|_| self.rng.pick(&terms).clone()).collect();
+                if self.rng.chance(1, 3) {
+                    v.push("zz_absent".to_string());
+                }
+                v.sort();
+                v.dedup();
+                self.rng.shuffle(&mut v);
+                IncExc::Values(v)
+            }
+            3 => {
+                let t = self.rng.pick(&terms).clone();
+                let chars: Vec<char> = t.chars().collect();
+                let k = self.rng.urange(1, chars.len().max(1));
+                let prefix: String = chars.iter().take(k).collect();
+                IncExc::Regex(format!("{prefix}.*"))
+            }
+            4 => IncExc::Regex(
+                self.rng
+                    .pick(&[".*[0-4]", ".*[5-9]", ".*[a-m]", ".*[n-z]", ".*(0|2|4|6|8|a|e|i|o)", ".+[13579e]"])
+                    .to_string(),
+            ),
+            _ => {
+                let k = self.rng.urange(1, terms.len().min(3));
+                let v: Vec<String> = (0..k).map(|_| self.rng.pick(&terms).clone()).collect();
+                IncExc::Regex(v.join("|"))
+            }
+        }
+    }
+
+    /// include only / exclude only / both
+    pub fn gen_inc_exc(&mut self, f: Fd) -> (Option<IncExc>, Option<IncExc>) {
+        match self.rng.weighted(&[40, 40, 20]) {
+            0 => (Some(self.gen_term_filter(f)), None),
+            1 => (None, Some(self.gen_term_filter(f))),
+            _ => (Some(self.gen_term_filter(f)), Some(self.gen_term_filter(f))),
+        }
+    }
+
     /// terms aggregation whose per segment cut-off never cuts anything (exact comparison)
     pub fn gen_terms_on(&mut self, field: Fd, depth: usize, top: bool) -> (String, Agg) {
         let card = self.corpus.distinct(field) as u32 + 2;
@@ -1163,6 +1263,11 @@ impl<'a> Gen<'a> {
         } else {
             None
         };
+        let (include, exclude) = if field.ty() == Ty::Str && missing.is_none() && self.rng.chance(1, 8) {
+            self.gen_inc_exc(field)
+        } else {
+            (None, None)
+        };
         let str_missing_on_non_str =
             field.ty() != Ty::Str && matches!(missing, Some(Value::String(_)));
         let mut order = match self.rng.below(6) {
@@ -1221,6 +1326,8 @@ impl<'a> Gen<'a> {
                 missing,
                 show_err,
                 approx: false,
+                include,
+                exclude,
                 subs,
             },
         )
@@ -1247,6 +1354,8 @@ impl<'a> Gen<'a> {
                 missing: None,
                 show_err: Some(true),
                 approx: true,
+                include: None,
+                exclude: None,
                 subs,
             },
         )
@@ -1425,6 +1534,8 @@ impl<'a> Gen<'a> {
                 missing: None,
                 show_err,
                 approx: false,
+                include: None,
+                exclude: None,
                 subs,
             },
         );
@@ -1682,6 +1793,263 @@ impl<'a> Gen<'a> {
         } else {
             ((name, parent), tag)
         }
+    }
+
+    /// is the field a full column (exactly one value in every document of the corpus)?
+    pub fn is_full(&self, f: Fd) -> bool {
+        !self.corpus.docs.is_empty() && self.corpus.docs.iter().all(|d| d.get(f).len() == 1)
+    }
+
+    /// One sub aggregation for the placeholder family: every kind is reached; the kinds whose
+    /// intermediate result carries something of the request or of the column (extended_stats
+    /// sigma, percentiles, top_hits, cardinality, histogram / range date flag, composite paging)
+    /// twice as often, with non-default parameters, and histogram / range / terms half of the time
+    /// over the date field.
+    fn gen_placeholder_sub(&mut self) -> (String, Agg) {
+        const MKS: [MK; 6] = [MK::Count, MK::Sum, MK::Min, MK::Max, MK::Avg, MK::Stats];
+        //            0..=5 plain metrics, 6 xstats, 7 pct, 8 card, 9 tophits, 10 terms, 11 hist,
+        //            12 datehist, 13 range, 14 filter, 15 composite
+        let k = self.rng.weighted(&[1, 1, 1, 1, 1, 1, 3, 2, 2, 2, 1, 3, 2, 3, 1, 2]);
+        let depth = self.rng.urange(0, 1);
+        match k {
+            0..=5 => self.gen_metric_branch(0, Some(MKS[k])),
+            6 => {
+                let (name, mut a) = self.gen_metric_branch(0, Some(MK::ExtStats));
+                if let Agg::Metric { sigma, .. } = &mut a {
+                    if self.rng.chance(3, 4) {
+                        *sigma = Some(*self.rng.pick(&[1.0, 3.0, 0.5, 1.5, 0.0]));
+                    }
+                }
+                (name, a)
+            }
+            7 => self.gen_metric_branch(1, None),
+            8 => self.gen_metric_branch(2, None),
+            9 => self.gen_metric_branch(3, None),
+            10 => {
+                let f = *self.rng.pick(&[Fd::Rank, Fd::Fb, Fd::Cat, Fd::Fdt, Fd::Fi, Fd::Fip]);
+                let (name, mut t) = self.gen_terms_on(f, depth, false);
+                // every bucket is returned: no arbitrary choice among ties at the `size` cut
+                let all = self.corpus.distinct(f) as u32 + 5;
+                if let Agg::Terms { size, segment_size, .. } = &mut t {
+                    *size = Some(all);
+                    *segment_size = Some(all);
+                }
+                (name, t)
+            }
+            11 => {
+                let f = if self.rng.bool() { Fd::Fdt } else { self.pick_single_num_field(true) };
+                self.gen_hist_on(f, depth)
+            }
+            13 => {
+                let f = if self.rng.bool() { Fd::Fdt } else { self.pick_single_num_field(true) };
+                self.gen_range_on(f, depth)
+            }
+            _ => self.gen_bucket_branch(k - 10, depth, false),
+        }
+    }
+
+    /// The placeholder family: a top-level terms aggregation over a string field with
+    /// `min_doc_count: 0` (every term of a segment's dictionary gets a bucket, with an empty
+    /// placeholder result for its sub aggregations when no matching document of that segment has
+    /// the term) x one to three sub aggregations of every kind. Meant to be run with a filtering
+    /// query over several segments / indexes: the placeholder of one partition is then merged, as
+    /// the left or the right operand, with the real result of another partition.
+    pub fn gen_terms_mdc0_over_sub(&mut self) -> ((String, Agg), String) {
+        let cands: Vec<Fd> = [Fd::Cat, Fd::Cat, Fd::Tag, Fd::Txt]
+            .into_iter()
+            .filter(|f| self.corpus.distinct(*f) > 0)
+            .collect();
+        let field = if cands.is_empty() { Fd::Cat } else { *self.rng.pick(&cands) };
+        let all = self.corpus.distinct(field) as u32 + 2 + self.rng.range(0, 3) as u32;
+        let size = match self.rng.below(6) {
+            0 => None,
+            1 => Some(self.rng.range(1, all as u64) as u32),
+            _ => Some(all),
+        };
+        let (include, exclude) = if self.rng.chance(1, 5) { self.gen_inc_exc(field) } else { (None, None) };
+        let order = match self.rng.below(6) {
+            0 => None,
+            1 => Some((OrdT::Count, false)),
+            2 => Some((OrdT::Count, true)),
+            3 | 4 => Some((OrdT::Key, true)),
+            _ => Some((OrdT::Key, false)),
+        };
+        let mut subs = vec![];
+        let nsubs = self.rng.weighted(&[0, 50, 35, 15]);
+        let budget = 20_000.0 / (all as f64 + 1.0);
+        let mut kinds = vec![];
+        for _ in 0..nsubs {
+            let mut sub = self.gen_placeholder_sub();
+            for _ in 0..3 {
+                if self.est_buckets(&sub.1) <= budget / nsubs as f64 {
+                    break;
+                }
+                sub = self.gen_placeholder_sub();
+            }
+            if self.est_buckets(&sub.1) > budget / nsubs as f64 {
+                sub = self.gen_sub_uniform(false, 0);
+            }
+            kinds.push(match &sub.1 {
+                Agg::Hist { field, .. } | Agg::Range { field, .. } | Agg::Terms { field, .. } if field.ty() == Ty::Date => {
+                    format!("{}:date", sub.1.kind())
+                }
+                a => a.kind().to_string(),
+            });
+            subs.push(sub);
+        }
+        kinds.sort();
+        let tag = format!("terms-mdc0/{}>{}", field.name(), kinds.join("+"));
+        (
+            (
+                self.name("terms"),
+                Agg::Terms {
+                    field,
+                    size,
+                    segment_size: Some(all),
+                    min_doc_count: Some(0),
+                    order,
+                    missing: None,
+                    show_err: *self.rng.pick(&[None, None, Some(true), Some(false)]),
+                    approx: false,
+                    include,
+                    exclude,
+                    subs,
+                },
+            ),
+            tag,
+        )
+    }
+
+    /// The fused terms x histogram family: a top-level terms aggregation over a string field
+    /// (a full column when the corpus has one) with exactly one histogram / date_histogram leaf
+    /// over a numeric / date field (a full column when there is one) x include / exclude x
+    /// hard_bounds that cut values (both sides, one side, a single point, or not binding) x
+    /// min_doc_count / order / size of the terms x min_doc_count / extended_bounds / offset of the
+    /// histogram. The number of histogram buckets is kept small so that terms x buckets mostly
+    /// stays below the size limit of the fused collector's grid, and sometimes exceeds it.
+    pub fn gen_fused_terms_hist(&mut self) -> ((String, Agg), String) {
+        let full_str: Vec<Fd> = [Fd::Cat, Fd::Tag].into_iter().filter(|f| self.is_full(*f)).collect();
+        let field = if !full_str.is_empty() && self.rng.chance(9, 10) {
+            *self.rng.pick(&full_str)
+        } else {
+            *self.rng.pick(&[Fd::Cat, Fd::Tag, Fd::Txt])
+        };
+        let mut full_num: Vec<Fd> = [Fd::Rank, Fd::Id, Fd::Fi, Fd::Ff, Fd::Fu, Fd::Fdt]
+            .into_iter()
+            .filter(|f| self.is_full(*f))
+            .filter(|f| self.corpus.span(*f).map(|(lo, hi)| lo.abs() < 1e15 && hi.abs() < 1e15 || f.ty() == Ty::Date).unwrap_or(false))
+            .collect();
+        if full_num.is_empty() || self.rng.chance(1, 12) {
+            full_num = vec![Fd::Fi, Fd::Ff, Fd::Fdt, Fd::Rank];
+        }
+        let hf = *self.rng.pick(&full_num);
+        let date_hist = hf == Fd::Fdt && self.rng.chance(2, 3);
+        // the histogram
+        let (name, mut hist) = if date_hist {
+            self.gen_bucket_branch(2, 0, false)
+        } else {
+            self.gen_hist_on(hf, 0)
+        };
+        // hard bounds in the unit of the request (ms for dates)
+        let scale = if hf.ty() == Ty::Date { 1e6 } else { 1.0 };
+        let (lo, hi) = self.corpus.span(hf).map(|(a, b)| (a / scale, b / scale)).unwrap_or((0.0, 10.0));
+        let w = (hi - lo).max(1.0);
+        let integral = hf.ty() != Ty::F64;
+        let r = |x: f64| if integral { x.round() } else { x };
+        let mid = r(lo + w * self.rng.f64());
+        let hb = match self.rng.below(9) {
+            0 | 1 => Some((r(lo + w * 0.2), r(hi - w * 0.3))),
+            2 => Some((r(lo + w * 0.5), hi + w)),
+            3 => Some((lo - w, r(hi - w * 0.5))),
+            4 => Some((mid, mid)),
+            5 => Some((lo - w, hi + w)),
+            6 => Some((lo, hi)),
+            _ => None,
+        };
+        let hb = hb.filter(|h| h.0 <= h.1);
+        let mut binding = false;
+        match &mut hist {
+            Agg::Hist { hard, ext, keyed, .. } | Agg::DateHist { hard, ext, keyed, .. } => {
+                *keyed = false;
+                if self.rng.chance(4, 5) {
+                    *hard = hb;
+                    // extended bounds have to lie inside the hard bounds
+                    *ext = match (*ext, hb) {
+                        (Some(e), Some(h)) => Some((e.0.max(h.0), e.1.min(h.1))).filter(|e| e.0 <= e.1),
+                        (e, _) => e,
+                    };
+                }
+                if let Some(h) = hard {
+                    binding = h.0 > lo || h.1 < hi;
+                }
+            }
+            _ => {}
+        }
+        // terms x histogram buckets mostly below the size limit of the fused grid (16384 cells)
+        let nterms = self.corpus.distinct(field) as f64 + 1.0;
+        if nterms * self.est_buckets(&hist) > 12_000.0 && self.rng.chance(4, 5) {
+            let target = (12_000.0 / nterms).floor().max(1.0);
+            match &mut hist {
+                Agg::Hist { interval, offset, ext, .. } => {
+                    let iv = w / target;
+                    *interval = if integral { iv.ceil().max(1.0) } else { iv };
+                    *offset = None;
+                    *ext = None;
+                }
+                Agg::DateHist { interval, offset, ext, .. } => {
+                    if let Some((txt, ms)) = DATE_IVS.iter().find(|(_, ms)| w / (*ms as f64) <= target) {
+                        *interval = (txt.to_string(), *ms);
+                        *offset = None;
+                        *ext = None;
+                    }
+                }
+                _ => {}
+            }
+        }
+        let hist_kind = hist.kind();
+        // the terms
+        let (tname, mut terms) = self.gen_terms_on(field, 0, true);
+        let mut filtered = "none";
+        if let Agg::Terms { subs, missing, include, exclude, min_doc_count, order, .. } = &mut terms {
+            *subs = vec![(name, hist)];
+            if matches!(order, Some((OrdT::Sub(..), _))) {
+                *order = None;
+            }
+            if self.rng.chance(2, 3) {
+                *missing = None;
+                let (i, e) = self.gen_inc_exc(field);
+                filtered = match (&i, &e) {
+                    (Some(_), Some(_)) => "include+exclude",
+                    (Some(_), None) => "include",
+                    _ => "exclude",
+                };
+                *include = i;
+                *exclude = e;
+            } else if include.is_some() || exclude.is_some() {
+                filtered = "some";
+            }
+            if self.rng.chance(1, 6) {
+                *min_doc_count = Some(0);
+            }
+        }
+        if self.est_buckets(&terms) > 40_000.0 {
+            // far beyond the bucket limit: fewer histogram buckets
+            if let Agg::Terms { subs, .. } = &mut terms {
+                if let Some((_, Agg::Hist { interval, ext, .. })) = subs.first_mut() {
+                    *interval = if integral { (w / 8.0).ceil().max(1.0) } else { w / 8.0 };
+                    *ext = None;
+                }
+            }
+        }
+        let tag = format!(
+            "fused-terms-hist/{}{}>{}/{}/{}",
+            field.name(),
+            if self.is_full(field) { "(full)" } else { "" },
+            hist_kind,
+            filtered,
+            if binding { "binding-hard-bounds" } else { "no-binding-bounds" }
+        );
+        ((tname, terms), tag)
     }
 
     pub fn gen_request(&mut self) -> Aggs {
